@@ -24,6 +24,7 @@ type c02Params struct {
 	StallAt int
 	Max     int // grep: --max
 	After   int // grep: --after
+	D       int // deviation bound of this scenario (0 = tier default)
 }
 
 func (p c02Params) String() string {
@@ -116,7 +117,7 @@ func c02Body(p c02Params, paths []string, dir string) (string, string) {
 
 func c02Scenario(p c02Params) *explore.Scenario {
 	paths, dir := c02Setup(p)
-	sc := &explore.Scenario{Name: "c02", Params: p.String(), MaxSteps: 400000, Horizon: 90 * time.Second, Demotion: true}
+	sc := &explore.Scenario{Name: "c02", Params: p.String(), MaxSteps: 400000, Horizon: 90*time.Second + 2*p.Stall, Demotion: true}
 	sc.Run = func(cfg vrt.Config) (string, string, vrt.Result) {
 		var out, viol string
 		var hooks []vrt.HookEvent
@@ -139,7 +140,7 @@ func c02Scenario(p c02Params) *explore.Scenario {
 		return out, viol, res
 	}
 	sc.Filter = func(pt *vrt.Point, alt int) bool {
-		if pt.Alts[alt].Kind == vrt.AltDemote {
+		if pt.Alts[alt].Kind != vrt.AltRun {
 			return true
 		}
 		inf := pt.Infos[alt]
@@ -201,6 +202,8 @@ func c02ParamSets(tier string) (ps []c02Params, d int) {
 			{Kind: "cat", Files: []int{1, 2}, Glob: true, CatLimit: 1},
 			{Kind: "grep", Files: []int{3}, CatLimit: 2, Max: 1, After: 1},
 			{Kind: "cat", Files: []int{2}, CatLimit: 2, Stall: 150 * time.Millisecond, StallAt: 2},
+			{Kind: "cat", Files: []int{3}, CatLimit: 2, Stall: 12 * time.Second, StallAt: 2, D: 1},
+			{Kind: "cat", Files: []int{3}, CatLimit: 2, Stall: 61 * time.Second, StallAt: 3, D: 1},
 		}, 2
 	}
 	for _, files := range [][]int{{0}, {1}, {2}, {0, 1}, {1, 0}, {1, 2}, {2, 2}, {0, 1, 2}, {1, 1, 1}} {
@@ -211,7 +214,7 @@ func c02ParamSets(tier string) (ps []c02Params, d int) {
 			}
 		}
 	}
-	for _, st := range []time.Duration{50 * time.Millisecond, 150 * time.Millisecond, 2 * time.Second, 6 * time.Second} {
+	for _, st := range []time.Duration{50 * time.Millisecond, 150 * time.Millisecond, 2 * time.Second, 6 * time.Second, 12 * time.Second, 61 * time.Second} {
 		for _, at := range []int{1, 2, 3} {
 			ps = append(ps, c02Params{Kind: "cat", Files: []int{2}, CatLimit: 2, Stall: st, StallAt: at})
 			ps = append(ps, c02Params{Kind: "cat", Files: []int{1, 2}, Glob: true, CatLimit: 1, Stall: st, StallAt: at})
@@ -250,7 +253,11 @@ func init() {
 				if c.Expired() {
 					return
 				}
-				c.Explore(c02Scenario(p), d, c02Sig)
+				dd := d
+				if p.D > 0 {
+					dd = p.D
+				}
+				c.Explore(c02Scenario(p), dd, c02Sig)
 				c.Sample(map[string]interface{}{"scenario": p.String(), "deviation_bound": d})
 			}
 		},
